@@ -559,3 +559,340 @@ Section FstFuzzy.
       + intros x Hx. pose proof (max_dist_ge r x Hx). lia.
   Qed.
 End FstFuzzy.
+
+(* ------------------------------------------------------------------------------------------ *)
+(** * MergedDictionary::fuzzy_match *)
+(* "covered up to the cap": the word w (at distance dw) is in the result, or the result is full of
+   entries that are at least as close *)
+Definition covers (r : list fres) (k : nat) (w : text) (dw : nat) : Prop :=
+  (exists x, In x r /\ r_word x = w /\ r_dist x <= dw) \/
+  (length r = k /\ forall x, In x r -> r_dist x <= dw).
+
+Lemma concat_res_ok {A} (l : list (res (list A))) (rs : list (list A)) :
+  Forall2 (fun r x => r = Ok x) l rs -> concat_res l = Ok (concat rs).
+Proof.
+  induction 1 as [|r x l rs E _ IH]; cbn [concat_res concat]; [reflexivity|].
+  rewrite E. cbn [bind]. rewrite IH. reflexivity.
+Qed.
+
+Lemma filter_all_id {A} (p : A -> bool) l : (forall x, In x l -> p x = true) -> filter p l = l.
+Proof.
+  induction l as [|x l IH]; intros H; cbn [filter]; [reflexivity|].
+  rewrite (H x (or_introl eq_refl)). f_equal. apply IH. intros y Hy. apply H. now right.
+Qed.
+
+Lemma filter_len_le {A} (p : A -> bool) l : length (filter p l) <= length l.
+Proof. induction l as [|x l IH]; cbn [filter]; [lia|]. destruct (p x); cbn [length]; lia. Qed.
+
+Lemma filter_concat_length {A} (p : A -> bool) (rs : list (list A)) ri :
+  In ri rs -> length (filter p ri) <= length (filter p (concat rs)).
+Proof.
+  induction rs as [|r rs IH]; intros H; [contradiction|]. cbn [concat]. rewrite filter_app, app_length.
+  destruct H as [->|H]; [lia|]. specialize (IH H). lia.
+Qed.
+
+Theorem merged_fuzzy_spec cs q lq d k rs :
+  Forall2 (fun c r => d_fuzzy c q lq d k = Ok r) cs rs ->
+  merged_fuzzy cs q lq d k = Ok (firstn k (isort dist_le (concat rs))) /\
+  topk_outcome r_dist (concat rs) k (firstn k (isort dist_le (concat rs))).
+Proof.
+  intros H. split; [|apply (isort_topk r_dist)].
+  unfold merged_fuzzy. rewrite (concat_res_ok _ rs); [reflexivity|].
+  induction H; cbn [map]; constructor; assumption.
+Qed.
+
+(* whatever the children returned: the merged result consists of children's results, is ordered and
+   capped, and inherits "complete up to the cap" from any child *)
+Theorem merged_fuzzy_sound (rs : list (list fres)) k r :
+  topk_outcome r_dist (concat rs) k r ->
+  (forall x, In x r -> exists ri, In ri rs /\ In x ri) /\
+  StronglySorted (fun a b => r_dist a <= r_dist b) r /\ length r <= k /\
+  (forall w dw, (exists ri, In ri rs /\ covers ri k w dw) -> covers r k w dw).
+Proof.
+  intros Htop. repeat split.
+  - intros x Hx. apply (topk_in r_dist _ _ _ _ Htop) in Hx. apply in_concat in Hx as (ri & H1 & H2). eauto.
+  - apply (topk_sorted r_dist _ _ _ Htop).
+  - rewrite (topk_length r_dist _ _ _ Htop). lia.
+  - intros w dw (ri & Hri & [(x & Hx & Ew & Hd)|[Hlen Hall]]).
+    + assert (Hc : In x (concat rs)) by (apply in_concat; eauto).
+      destruct (topk_complete r_dist _ _ _ _ Htop Hc) as [Hin|[Hl Hb]].
+      * left. eauto.
+      * right. split; [exact Hl|]. intros y Hy. specialize (Hb y Hy). lia.
+    + assert (Hk : k <= length (filter (fun a => r_dist a <=? dw) (concat rs))).
+      { etransitivity; [|apply (filter_concat_length _ rs ri Hri)].
+        rewrite filter_all_id; [lia|]. intros y Hy. apply Nat.leb_le. now apply Hall. }
+      right. split.
+      * rewrite (topk_length r_dist _ _ _ Htop).
+        pose proof (filter_len_le (fun a => r_dist a <=? dw) (concat rs)). lia.
+      * apply (topk_bound r_dist _ _ _ _ Htop Hk).
+Qed.
+
+(* ------------------------------------------------------------------------------------------ *)
+(** * witnesses (ASCII instance of the Unicode data; the stream = its contract) *)
+Definition ascii_is_lower (c : char) : bool := (97 <=? c)%N && (c <=? 122)%N.
+Definition ascii_lower (c : char) : list char := if (65 <=? c)%N && (c <=? 90)%N then [(c + 32)%N] else [c].
+(* plus U+0130 (capital I with dot) whose lower-case form has two characters *)
+Definition dot_lower (c : char) : list char := if (c =? 304)%N then [105; 775]%N else ascii_lower c.
+
+Definition w_AB : text := [65; 66]%N.
+Definition w_ab : text := [97; 98]%N.
+Definition w_abc : text := [97; 98; 99]%N.
+Definition w_Abc : text := [65; 98; 99]%N.
+
+(* the positional zip drops a correctly spelt upper-case dictionary word: the lower-case stream is
+   empty, so nothing is paired with it *)
+Lemma fst_zip_incomplete :
+  let f := fst_new ascii_is_lower ascii_lower [(w_AB, 1)] in
+  fst_fuzzy (spec_stream lev) f w_AB w_ab 0 10 = Ok [] /\
+  In (w_AB, 1) (f_words f) /\ lev (normalized w_AB) w_AB = 0 /\
+  fst_contains ascii_is_lower ascii_lower f w_AB = true.
+Proof. vm_compute. repeat split. now left. Qed.
+
+(* FstDictionary::new called directly with two spellings of one id (FC15a) *)
+Lemma fst_new_collision :
+  let ws := [(w_abc, 1); (w_Abc, 2)] in
+  let f := fst_new ascii_is_lower ascii_lower ws in
+  let m := mut_extend ascii_is_lower ascii_lower [] ws in
+  ~ NoDup (ids_of ascii_is_lower ascii_lower ws) /\
+  mut_exact ascii_is_lower ascii_lower m w_Abc = true /\ fst_exact ascii_is_lower ascii_lower f w_Abc = false /\
+  In (w_Abc, 2) (f_words f) /\ ~ In w_Abc (fst_words_iter f) /\
+  fst_meta ascii_is_lower ascii_lower f w_Abc = Some 1 /\
+  fst_fuzzy (spec_stream lev) f w_Abc w_abc 1 10 = Ok [mkfres w_Abc 0 2; mkfres w_abc 0 1].
+Proof.
+  cbv zeta. split.
+  - vm_compute. intros H. inversion H as [|? ? Hn _]; subst. apply Hn. now left.
+  - vm_compute. repeat split; [now left|].
+    intros [H|[]]. discriminate.
+Qed.
+
+(* MutableDictionary's length window is computed from the query, not from its lower-case form:
+   when lower-casing changes the length, an exact match of the lower-case form is dropped *)
+Lemma mut_window_uses_query_length :
+  let w := [105; 775]%N in
+  let m := mut_extend ascii_is_lower dot_lower [] [(w, 1)] in
+  let q := [304]%N in
+  to_lower ascii_is_lower dot_lower (normalized q) = w /\ lev w w = 0 /\
+  mut_fuzzy ascii_is_lower dot_lower true m q 0 10 = Ok [].
+Proof. vm_compute. repeat split. Qed.
+
+(* … and it never returns the empty word (the window starts at length 1) *)
+Lemma mut_window_skips_empty_word :
+  let m := mut_extend ascii_is_lower ascii_lower [] [([], 1)] in
+  lev [97%N] [] = 1 /\ mut_contains ascii_is_lower ascii_lower m [] = true /\
+  mut_fuzzy ascii_is_lower ascii_lower true m [97%N] 1 10 = Ok [].
+Proof. vm_compute. repeat split. Qed.
+
+(* non-vacuity of the fuzzy theorems: a small dictionary, all three back-ends *)
+Lemma fuzzy_example :
+  let ws := [(w_abc, 1); (w_ab, 2); ([98%N], 3)] in
+  let m := mut_extend ascii_is_lower ascii_lower [] ws in
+  let f := fst_of_mutable ascii_is_lower ascii_lower m in
+  let q := [97; 98; 100]%N in   (* "abd" *)
+  mut_fuzzy ascii_is_lower ascii_lower true m q 1 10 = Ok [mkfres w_abc 1 1; mkfres w_ab 1 2] /\
+  fst_fuzzy (spec_stream lev) f q q 1 10 = Ok [mkfres w_ab 1 2; mkfres w_abc 1 1] /\
+  merged_fuzzy [mut_ops ascii_is_lower ascii_lower true m; fst_ops ascii_is_lower ascii_lower (spec_stream lev) f] q q 1 3
+    = Ok [mkfres w_abc 1 1; mkfres w_ab 1 2; mkfres w_ab 1 2].
+Proof. vm_compute. repeat split. Qed.
+
+(* ------------------------------------------------------------------------------------------ *)
+(** * the executable FST model (stable sorts) is one of the admissible outcomes *)
+Lemma text_leb_refl a : text_leb a a = true.
+Proof. induction a as [|x a IH]; cbn [text_leb]; [reflexivity|]. rewrite N.ltb_irrefl, N.eqb_refl. exact IH. Qed.
+
+Lemma text_leb_total a b : text_leb a b = true \/ text_leb b a = true.
+Proof.
+  revert b. induction a as [|x a IH]; intros [|y b]; cbn [text_leb]; auto.
+  destruct (N.ltb_spec x y); [now left|]. destruct (N.ltb_spec y x); [now right|].
+  assert (x = y) as -> by lia. rewrite N.eqb_refl. apply IH.
+Qed.
+
+Lemma text_leb_trans a b c : text_leb a b = true -> text_leb b c = true -> text_leb a c = true.
+Proof.
+  revert b c. induction a as [|x a IH]; intros [|y b] [|z c]; cbn [text_leb]; auto; try discriminate.
+  destruct (N.ltb_spec x y) as [Hxy|Hxy]; destruct (N.ltb_spec y z) as [Hyz|Hyz]; intros H1 H2.
+  - destruct (N.ltb_spec x z); [reflexivity|lia].
+  - destruct (N.eqb_spec y z); [|discriminate]. subst. destruct (N.ltb_spec x z); [reflexivity|lia].
+  - destruct (N.eqb_spec x y); [|discriminate]. subst. destruct (N.ltb_spec y z); [reflexivity|lia].
+  - destruct (N.eqb_spec x y); [|discriminate]. destruct (N.eqb_spec y z); [|discriminate]. subst.
+    rewrite N.ltb_irrefl, N.eqb_refl. eapply IH; eassumption.
+Qed.
+
+Lemma text_leb_antisym a b : text_leb a b = true -> text_leb b a = true -> a = b.
+Proof.
+  revert b. induction a as [|x a IH]; intros [|y b]; cbn [text_leb]; auto; try discriminate.
+  destruct (N.ltb_spec x y) as [Hxy|Hxy]; destruct (N.ltb_spec y x) as [Hyx|Hyx]; intros H1 H2; try lia.
+  - destruct (N.eqb_spec y x); [lia|discriminate].
+  - destruct (N.eqb_spec x y); [lia|discriminate].
+  - destruct (N.eqb_spec x y); [|discriminate]. subst. rewrite N.eqb_refl in H2. f_equal. now apply IH.
+Qed.
+
+Section SortGen.
+  Context {A : Type} (le : A -> A -> bool).
+  Hypothesis le_total : forall a b, le a b = true \/ le b a = true.
+  Hypothesis le_trans : forall a b c, le a b = true -> le b c = true -> le a c = true.
+  Let R (a b : A) : Prop := le a b = true.
+
+  Lemma insert_by_sorted_gen x l : StronglySorted R l -> StronglySorted R (insert_by le x l).
+  Proof.
+    induction 1 as [|y ys Hs IH Hy]; cbn [insert_by]; [repeat constructor|].
+    destruct (le x y) eqn:E.
+    - constructor; [now constructor|]. constructor; [exact E|].
+      eapply Forall_impl; [|exact Hy]. intros z Hz. now apply (le_trans x y z).
+    - constructor; [exact IH|]. rewrite (insert_by_perm le x ys).
+      constructor; [|exact Hy]. destruct (le_total x y) as [H|H]; [congruence|exact H].
+  Qed.
+
+  Lemma isort_sorted_gen l : StronglySorted R (isort le l).
+  Proof. induction l as [|x xs IH]; cbn [isort]; [constructor|now apply insert_by_sorted_gen]. Qed.
+End SortGen.
+
+Definition word_R (a b : fres) : Prop := word_le a b = true.
+
+Lemma isort_word_sorted l : StronglySorted word_R (isort word_le l).
+Proof.
+  apply isort_sorted_gen; unfold word_le.
+  - intros a b. apply text_leb_total.
+  - intros a b c. apply text_leb_trans.
+Qed.
+
+Lemma dedup_from_incl {A} (same : A -> A -> bool) last l x : In x (dedup_from same last l) -> In x l.
+Proof.
+  revert last. induction l as [|y rest IH]; intros last H; cbn [dedup_from] in H; [contradiction|].
+  destruct (same y last); [right; eapply IH; exact H|]. destruct H as [<-|H]; [now left|right; eapply IH; exact H].
+Qed.
+
+(* after a sort by word, dedup leaves exactly one entry per word *)
+Lemma dedup_from_sorted last l : StronglySorted word_R (last :: l) ->
+  NoDup (map r_word (last :: dedup_from same_word last l)) /\
+  forall x, In x (last :: l) -> exists y, In y (last :: dedup_from same_word last l) /\ r_word y = r_word x.
+Proof.
+  revert last. induction l as [|y rest IH]; intros last S.
+  - cbn [dedup_from map]. split; [repeat constructor; intros []|]. intros x [<-|[]]. exists last. split; [now left|reflexivity].
+  - inversion S as [|? ? S1 F1]; subst. inversion S1 as [|? ? S2 F2]; subst. inversion F1 as [|? ? Hly F1']; subst.
+    cbn [dedup_from]. destruct (same_word y last) eqn:E.
+    + apply text_eqb_eq in E.
+      destruct (IH last) as [ND Cov]; [constructor; assumption|]. split; [exact ND|].
+      intros x [<-|[<-|Hx]].
+      * apply Cov. now left.
+      * exists last. split; [now left|now symmetry].
+      * apply Cov. now right.
+    + destruct (IH y S1) as [ND Cov]. split.
+      * rewrite map_cons. constructor; [|exact ND].
+        intros Hin. apply in_map_iff in Hin as (z & Ez & Hz).
+        assert (Hz' : In z (y :: rest)) by (destruct Hz as [<-|Hz]; [now left|right; eapply dedup_from_incl; exact Hz]).
+        assert (Hyz : word_R y z).
+        { destruct Hz' as [<-|Hz']; [unfold word_R, word_le; apply text_leb_refl|].
+          rewrite Forall_forall in F2. now apply F2. }
+        unfold word_R, word_le in Hly, Hyz. rewrite Ez in Hyz.
+        pose proof (text_leb_antisym _ _ Hly Hyz) as Eq.
+        apply text_eqb_neq in E. apply E. now symmetry.
+      * intros x [<-|Hx]; [exists last; split; [now left|reflexivity]|].
+        destruct (Cov x Hx) as (z & Hz & Ez). exists z. split; [now right|exact Ez].
+Qed.
+
+Lemma dedup_sorted l : StronglySorted word_R l ->
+  NoDup (map r_word (dedup_by same_word l)) /\
+  (forall x, In x (dedup_by same_word l) -> In x l) /\
+  (forall x, In x l -> exists y, In y (dedup_by same_word l) /\ r_word y = r_word x).
+Proof.
+  destruct l as [|a l]; intros S; cbn [dedup_by].
+  - repeat split; [constructor|tauto|intros x []].
+  - destruct (dedup_from_sorted a l S) as [ND Cov]. repeat split; [exact ND| |exact Cov].
+    intros x [<-|Hx]; [now left|right; eapply dedup_from_incl; exact Hx].
+Qed.
+
+Lemma sorted_sorted_by_dist l : StronglySorted (key_le r_dist) l -> sorted_by_dist l = true.
+Proof.
+  induction 1 as [|a l _ IH Ha]; [reflexivity|]. destruct l as [|b l]; [reflexivity|].
+  change (sorted_by_dist (a :: b :: l)) with ((r_dist a <=? r_dist b) && sorted_by_dist (b :: l)).
+  rewrite IH, andb_true_r. inversion Ha; subst. now apply Nat.leb_le.
+Qed.
+
+Lemma nodup_words_nodup l : NoDup (map r_word l) -> words_nodup l = true.
+Proof.
+  induction l as [|a l IH]; cbn [map words_nodup]; intros H; [reflexivity|].
+  inversion H as [|? ? Hn ND]; subst. rewrite (IH ND), andb_true_r. apply negb_true_iff.
+  destruct (existsb (same_word a) l) eqn:E; [|reflexivity]. exfalso. apply Hn.
+  apply existsb_exists in E as (b & Hb & Eb). apply text_eqb_eq in Eb. rewrite Eb. now apply in_map.
+Qed.
+
+Lemma nub_words_incl l x : In x (nub_words l) -> In x l.
+Proof.
+  induction l as [|a l IH]; cbn [nub_words]; [tauto|]. destruct (existsb (same_word a) l); [right; now apply IH|].
+  intros [<-|H]; [now left|right; now apply IH].
+Qed.
+
+Lemma nub_words_nodup l : NoDup (map r_word (nub_words l)).
+Proof.
+  induction l as [|a l IH]; cbn [nub_words]; [constructor|].
+  destruct (existsb (same_word a) l) eqn:E; [exact IH|]. cbn [map]. constructor; [|exact IH].
+  intros Hin. apply in_map_iff in Hin as (b & Eb & Hb). apply nub_words_incl in Hb.
+  assert (existsb (same_word a) l = true); [|congruence]. apply existsb_exists. exists b. split; [exact Hb|].
+  unfold same_word. rewrite Eb. apply text_eqb_refl.
+Qed.
+
+Lemma max_dist_le l b : (forall x, In x l -> r_dist x <= b) -> max_dist l <= b.
+Proof.
+  induction l as [|a l IH]; intros H; cbn [max_dist fold_right]; [lia|].
+  pose proof (H a (or_introl eq_refl)). specialize (IH (fun x Hx => H x (or_intror Hx))). unfold max_dist in IH. lia.
+Qed.
+
+Lemma fres_eqb_refl a : fres_eqb a a = true.
+Proof. unfold fres_eqb. now rewrite text_eqb_refl, !Nat.eqb_refl. Qed.
+
+Theorem model_outcome_admissible merged k :
+  fst_admissible merged k
+    (firstn k (isort dist_le (dedup_by same_word (isort word_le merged)))) = true.
+Proof.
+  set (sw := isort word_le merged). set (dd := dedup_by same_word sw). set (sd := isort dist_le dd).
+  destruct (dedup_sorted sw (isort_word_sorted merged)) as (NDdd & Hincl & Hcov). fold dd in NDdd, Hincl, Hcov.
+  assert (Psw : Permutation sw merged) by apply isort_perm.
+  assert (Psd : Permutation sd dd) by apply isort_perm.
+  assert (Ssd : StronglySorted (key_le r_dist) sd) by apply (isort_sorted r_dist).
+  assert (Hr_in : forall x, In x (firstn k sd) -> In x merged).
+  { intros x Hx. apply in_firstn in Hx. apply (Permutation_in _ Psd) in Hx. apply Hincl in Hx.
+    now apply (Permutation_in _ Psw) in Hx. }
+  assert (NDsd : NoDup (map r_word sd)).
+  { eapply Permutation_NoDup; [|exact NDdd]. apply Permutation_map. now apply Permutation_sym. }
+  unfold fst_admissible. repeat (apply andb_true_iff; split).
+  - apply sorted_sorted_by_dist. now apply sorted_firstn.
+  - apply nodup_words_nodup. rewrite <- firstn_map. rewrite <- (firstn_skipn k (map r_word sd)) in NDsd.
+    now apply NoDup_app_l in NDsd.
+  - apply forallb_forall. intros x Hx. apply existsb_exists. exists x. split; [now apply Hr_in|apply fres_eqb_refl].
+  - apply Nat.eqb_eq. rewrite firstn_length, (Permutation_length Psd). f_equal.
+    rewrite <- (map_length r_word dd), <- (map_length r_word (nub_words merged)).
+    apply Nat.le_antisymm; apply NoDup_incl_length; try exact NDdd; try apply nub_words_nodup.
+    + intros w Hw. apply in_map_iff in Hw as (x & <- & Hx). apply Hincl in Hx. apply (Permutation_in _ Psw) in Hx.
+      destruct (nub_words_covers merged x Hx) as (n & Hn & En). apply in_map_iff. exists n. split; [exact En|exact Hn].
+    + intros w Hw. apply in_map_iff in Hw as (x & <- & Hx). apply nub_words_incl in Hx.
+      apply (Permutation_in _ (Permutation_sym Psw)) in Hx. destruct (Hcov x Hx) as (y & Hy & Ey).
+      apply in_map_iff. exists y. split; [exact Ey|exact Hy].
+  - apply forallb_forall. intros m Hm.
+    apply (Permutation_in _ (Permutation_sym Psw)) in Hm. destruct (Hcov m Hm) as (y & Hy & Ey).
+    assert (Hym : In y merged) by (apply Hincl in Hy; now apply (Permutation_in _ Psw) in Hy).
+    apply (Permutation_in _ (Permutation_sym Psd)) in Hy. rewrite <- (firstn_skipn k sd) in Hy.
+    apply orb_true_iff. apply in_app_or in Hy as [Hy|Hy].
+    + left. apply existsb_exists. exists y. split; [exact Hy|]. unfold same_word. rewrite Ey. apply text_eqb_refl.
+    + right. apply existsb_exists. exists y. split; [exact Hym|]. apply andb_true_iff. split.
+      * unfold same_word. rewrite Ey. apply text_eqb_refl.
+      * apply Nat.leb_le. apply max_dist_le. intros x Hx. rewrite <- (firstn_skipn k sd) in Ssd.
+        apply (sorted_app_le r_dist _ _ Ssd x y Hx Hy).
+Qed.
+
+(* under the stream contract the model's run never panics and is an admissible outcome *)
+Theorem fst_fuzzy_total stream f d (Hc : forall x, stream (f_words f) x d = spec_stream lev (f_words f) x d) q lq k :
+  exists r, fst_fuzzy stream f q lq d k = Ok r /\ fst_fuzzy_outcome stream f q lq d k r.
+Proof.
+  destruct (fst_merged_ok stream f d Hc (normalized q) lq) as (merged & Em & _).
+  unfold fst_fuzzy. rewrite Em. cbn [bind]. eexists. split; [reflexivity|].
+  exists merged. split; [exact Em|apply model_outcome_admissible].
+Qed.
+
+Lemma driver_shortcuts :
+  (forall s t, lev_fast s t = lev s t) /\
+  (forall ws x d, spec_stream_fast lev_fast ws x d = spec_stream lev ws x d) /\
+  (forall is_lower lower ws, NoDup (ids_of is_lower lower ws) ->
+     mut_extend is_lower lower [] ws = map (entry_of is_lower lower) ws) /\
+  (forall is_lower lower ws, adj_sorted ws = true -> NoDup (ids_of is_lower lower ws) ->
+     fst_new is_lower lower ws = mkfst (map (entry_of is_lower lower) ws) ws).
+Proof. repeat split; [apply lev_fast_correct|apply spec_stream_fast_eq|apply mut_extend_distinct_ids|apply fst_new_bulk]. Qed.
